@@ -83,7 +83,7 @@ class GroupBCD(BaseSolver):
             lipschitz = datafit.get_lipschitz(X, y)
 
         all_groups = np.arange(n_groups)
-        p_objs_out = np.zeros(self.max_iter)
+        p_objs_out = []
         stop_crit = np.inf  # prevent ref before assign when max_iter == 0
         accelerator = AndersonAcceleration(K=5)
 
@@ -178,9 +178,9 @@ class GroupBCD(BaseSolver):
                     if stop_crit_in <= 0.3 * stop_crit:
                         break
             p_obj = datafit.value(y, w, Xw) + penalty.value(w)
-            p_objs_out[t] = p_obj
+            p_objs_out.append(p_obj)
 
-        return w, p_objs_out, stop_crit
+        return w, np.asarray(p_objs_out), stop_crit
 
     def custom_checks(self, X, y, datafit, penalty):
         check_group_compatible(datafit)
